@@ -115,7 +115,9 @@ inductive Event where
   | readQ (i : Nat)             -- pending := queue.Size()
   | readKill (i : Nat)          -- kill := workerKill; decide
   | wWait (i : Nat)             -- cond.Wait(): join waiters, release L
-  | wRelock (i : Nat)           -- woken: re-acquire L
+  | wRelock (i : Nat)           -- woken: re-acquire L, return from idleTask.Run
+  | wRecheck (i : Nat)          -- woken: re-acquire L and re-check the predicate (the sync.Cond wait-loop idiom;
+                                -- the code as it is returns instead — both are covered)
   | wUnlock (i : Nat)           -- deferred L.Unlock()
   | unregIdle (i : Nat)
   | exit (i : Nat)              -- deferred delete from workerMap
@@ -210,6 +212,10 @@ def step (v : Variant) (s : State) : Event → Option State
     match s.pcs[i]? with
     | some woken => if lockFree s then some (s.goto i unlocking) else none
     | _ => none
+  | .wRecheck i =>
+    match s.pcs[i]? with
+    | some woken => if lockFree s then some (s.goto i hasL) else none
+    | _ => none
   | .wUnlock i =>
     match s.pcs[i]? with
     | some unlocking => some (s.goto i unreg)
@@ -281,7 +287,7 @@ def joinAllGuard (s : State) : Bool := s.workerCount = 0 && s.queue.length = 0
 /-- pool-internal events of worker `i`: what the goroutine can do on its own -/
 def workerEvents (i : Nat) (s : State) : List Event :=
   [.killExit i, .killPass i, .popNone i, .finish i, .regIdle i, .wLock i, .readQ i, .readKill i,
-   .wWait i, .wRelock i, .wUnlock i, .unregIdle i, .exit i, .drainExit i] ++ (s.queue.head?.map (Event.pop i)).toList
+   .wWait i, .wRelock i, .wRecheck i, .wUnlock i, .unregIdle i, .exit i, .drainExit i] ++ (s.queue.head?.map (Event.pop i)).toList
 
 /-- pool-internal events: worker steps and the remaining steps of calls already in
     flight (`AddTask` after its push, `SetWorkerCount` after setting workerKill). No
@@ -325,7 +331,7 @@ def CState.mv (s : CState) (a b : Cls) : Option CState :=
     abstraction forgets -/
 inductive CEvent where
   | killExit | killPass | pop (ok : Bool) | popNone (ok : Bool) | finish | regIdle | wLock | readQ
-  | readKill (p : Bool) | wWait | wRelock | wUnlock | unregIdle | exit | drainExit
+  | readKill (p : Bool) | wWait | wRelock | wRecheck | wUnlock | unregIdle | exit | drainExit
   | aPush | aLock | aSignal (some : Bool) | swcUp (n : Nat) | swcDown (k : Nat) | swcSet (c : Nat) | swcLock | swcBcast
   | joinKill | bcast
   deriving DecidableEq, Repr
@@ -347,6 +353,7 @@ def cstep (s : CState) : CEvent → Option CState
     s.mv (if p then .readQT else .readQF) (if !p && s.kill == 0 then .willWait else .unlocking)
   | .wWait => s.mv .willWait .waiting
   | .wRelock => if clockFree s then s.mv .woken .unlocking else none
+  | .wRecheck => if clockFree s then s.mv .woken .hasL else none
   | .wUnlock => s.mv .unlocking .unreg
   | .unregIdle => s.mv .unreg .head
   | .exit => s.mv .exiting .gone
@@ -375,7 +382,7 @@ def absEvent (s : State) : Event → CEvent
   | .popNone i => .popNone (match s.pcs[i]? with | some (.chk ok) => ok | _ => true)
   | .finish _ => .finish | .regIdle _ => .regIdle | .wLock _ => .wLock | .readQ _ => .readQ
   | .readKill i => .readKill (match s.pcs[i]? with | some (.readQ p) => p | _ => true)
-  | .wWait _ => .wWait | .wRelock _ => .wRelock | .wUnlock _ => .wUnlock
+  | .wWait _ => .wWait | .wRelock _ => .wRelock | .wRecheck _ => .wRecheck | .wUnlock _ => .wUnlock
   | .unregIdle _ => .unregIdle | .exit _ => .exit | .drainExit _ => .drainExit
   | .aPush _ => .aPush | .aLock => .aLock | .aSignal w => .aSignal w.isSome
   | .swcUp n => .swcUp n | .swcDown k => .swcDown k | .swcSet c => .swcSet c | .swcLock => .swcLock | .swcBcast => .swcBcast
